@@ -75,6 +75,8 @@ var vTailCorpus = []struct {
 	{4, []vTailBlock{{[]string{"G"}, false}, {[]string{"A"}, false}}},
 	// truncation makes a rewritten segment active; the reader parks at its end; it is rolled by age
 	{4, []vTailBlock{{[]string{"G", "A", "T1"}, false}, {[]string{"G"}, false}, {[]string{"A"}, false}}},
+	// a roll by the cleaner's timer (no append) under a parked reader, then appends to the new segment and another roll
+	{4, []vTailBlock{{[]string{"R"}, false}, {[]string{"A"}, false}, {[]string{"A"}, false}, {[]string{"G"}, false}}},
 	// ... and is appended to while the reader waits at its end
 	{4, []vTailBlock{{[]string{"G", "A", "T1"}, false}, {[]string{"A"}, false}, {[]string{"A"}, false}, {[]string{"G"}, false}}},
 }
@@ -191,7 +193,7 @@ func TestVerifTailWait(t *testing.T) {
 			}
 			for a := 0; a < nact; a++ {
 				active := c.l.activeSegment()
-				choice := rnd.pick(5, 3, 4)
+				choice := rnd.pick(5, 3, 4, 2)
 				var scriptK int64 = -1
 				if script != nil {
 					switch code := script[b].acts[a]; code[0] {
@@ -199,6 +201,8 @@ func TestVerifTailWait(t *testing.T) {
 						choice = 0
 					case 'G':
 						choice = 1
+					case 'R':
+						choice = 3
 					default:
 						choice = 2
 						fmt.Sscanf(code[1:], "%d", &scriptK)
@@ -231,6 +235,17 @@ func TestVerifTailWait(t *testing.T) {
 						acts = append(acts, vM{"a": "append"})
 						stats["append"]++
 					}
+				case 3:
+					// the cleaner's timer: the active segment is rolled because of its age without any append
+					atomic.AddInt64(&c.now, 5000)
+					if !active.CheckSplit(c.l.MaxSegmentAge) {
+						continue
+					}
+					if _, err := c.l.checkAndPerformSplit(); err != nil {
+						t.Fatal(err)
+					}
+					acts = append(acts, vM{"a": "roll"})
+					stats["roll/age-no-append"]++
 				default:
 					// truncate inside the active segment, above what the reader has consumed, not while the reader
 					// is held in front of waitForData of that segment (the server never truncates under a tail reader)
@@ -240,8 +255,11 @@ func TestVerifTailWait(t *testing.T) {
 					if lo < base {
 						lo = base
 					}
-					if state == "held" && atomic.LoadInt64(&c.got) > base {
-						continue // the reader is held in front of waitForData of the active segment itself
+					if state == "held" {
+						// (the reader goroutine is blocked in the hook: its fields are stable)
+						if ur, ok := rd.ctxReader.(*uncommittedReader); !ok || ur.seg == active {
+							continue // the reader is held in front of waitForData of the active segment itself
+						}
 					}
 					if lo == base && len(c.l.Segments()) > 1 {
 						lo = base + 1 // at the base the segment would be deleted, not rewritten
